@@ -169,7 +169,7 @@ def execute_rate(mod, case):
     for i in range(rc["offset"], rc["offset"] + rc["n"]):
         seed = derive(rc["verif_seed"], pid, i)
         r = execute_case(mod, mod.generate(seed, rc.get("tier", "quick")))
-        if r["violation"] and r["violation"]["sig"] == rc["sig"]:
+        if r["violation"] and rc["sig"] in (r["violation"]["sig"], r["violation"]["sig"] + "@" + str(r["violation"].get("rate_tag"))):
             hits += 1
             if len(examples) < 3:
                 examples.append({"run": i, "detail": r["violation"]["detail"]})
@@ -410,6 +410,10 @@ def _worker(args):
         if res["violation"]:
             vc = out["stats"].setdefault("_viol_counts", {})
             vc[res["violation"]["sig"]] = vc.get(res["violation"]["sig"], 0) + 1
+            if res["violation"].get("rate_tag"):
+                # sub-population of the runs in which the (known) signature occurred: has its own, tighter, rate bound
+                tk = res["violation"]["sig"] + "@" + res["violation"]["rate_tag"]
+                vc[tk] = vc.get(tk, 0) + 1
             if len(out["violations"]) < 40:
                 out["violations"].append((i, seed, case, res["violation"]))
     return out
